@@ -297,6 +297,11 @@ func (st *state) step(s Step) {
 				args = append(args, st.pick(s.C))
 			}
 		}
+		for _, a := range args {
+			if u, _ := a.Unmark(); u.IsKnown() && !u.IsNull() && u.CanIterateElements() && u.LengthInt() > 48 {
+				return // operands that chains of concat / flatten have doubled too often are not fed back
+			}
+		}
 		st.log = append(st.log, fmt.Sprintf("fn %s(#%d,#%d,...)", s.Op, mod(s.A, len(st.lives)), mod(s.B, len(st.lives))))
 		guarded(func() { _, _ = f.ReturnTypeForValues(args) })
 		var r cty.Value
